@@ -111,32 +111,44 @@ Notation hook_boundary := (hook_boundary is_private).
 Lemma own_decisive_requested : forall m, own_decisive m = true -> own_requested m = true.
 Proof.
   unfold own_decisive, own_requested. intros m.
-  destruct (m_kind m) as [| | |g st d| | | |]; intros H; try (rewrite H; reflexivity).
+  destruct (m_kind m) as [| | |g st d| | | | |]; intros H; try (rewrite H; reflexivity).
   destruct (m_mark m); [reflexivity|]. simpl.
-  destruct g as [bg|]; simpl in *.
+  destruct g as [[og pg]|]; simpl in *.
   - rewrite orb_false_r in H. rewrite H. reflexivity.
-  - destruct st as [bs|]; simpl in *.
+  - destruct st as [[os ps]|]; simpl in *.
     + rewrite orb_false_r in H. rewrite H. reflexivity.
-    + destruct d as [bd|]; simpl in *; [|discriminate]. rewrite orb_false_r in H. auto.
+    + destruct d as [[od pd]|]; simpl in *; [|discriminate]. rewrite orb_false_r in H. auto.
+Qed.
+
+Lemma first_pre_any : forall m, first_pre m = true -> any_pre m = true.
+Proof.
+  unfold first_pre, any_pre. intros m. destruct (m_kind m) as [| | |g st d| | | | |]; auto.
+  destruct g as [[og pg]|]; simpl; [intros H; rewrite H; reflexivity|].
+  destruct st as [[os ps]|]; simpl; [intros H; rewrite H; reflexivity|].
+  destruct d as [[od pd]|]; simpl; auto.
 Qed.
 
 Lemma exposed_explicit : forall s m, exposed s m = true -> explicitly_exposed s m /\ markable m = true.
 Proof.
   unfold Expose.exposed, Expose.explicitly_exposed, own_ok, class_marked. intros s m H.
   apply andb_true_iff in H. destruct H as [Hm H]. split; [|auto].
-  apply orb_true_iff in H. destruct H as [H|H]; apply andb_true_iff in H; destruct H as [H1 H2].
-  - left. split; [apply own_decisive_requested; auto|]. apply negb_true_iff; auto.
-  - right. apply andb_true_iff in H1. tauto.
+  apply orb_true_iff in H. destruct H as [H|H]; [apply orb_true_iff in H; destruct H as [H|H]|].
+  - apply andb_true_iff in H; destruct H as [H1 H2].
+    left. split; [apply own_decisive_requested; auto|]. apply negb_true_iff; auto.
+  - apply andb_true_iff in H; destruct H as [H1 H2].
+    right. left. apply andb_true_iff in H1. tauto.
+  - right. right. apply first_pre_any. auto.
 Qed.
 
 Lemma rule_exposed : forall s m,
   exposed_by_rule s m -> markable m = true -> is_private (m_name m) = false -> exposed s m = true.
 Proof.
-  unfold Expose.exposed, Expose.exposed_by_rule, own_ok, class_marked. intros s m [[H1 H2]|[H H']] Hm Hp; rewrite Hm; simpl.
+  unfold Expose.exposed, Expose.exposed_by_rule, own_ok, class_marked. intros s m [[H1 H2]|[[H H']|H]] Hm Hp; rewrite Hm; simpl.
   - rewrite H1, H2. reflexivity.
-  - rewrite H, Hp. simpl. apply orb_true_iff. right.
-    destruct (m_kind m) as [| | |g st d| | | |]; try reflexivity.
+  - rewrite H, Hp. simpl. apply orb_true_iff. left. apply orb_true_iff. right.
+    destruct (m_kind m) as [| | |g st d| | | | |]; try reflexivity.
     destruct g; [reflexivity|]. destruct st; [reflexivity|]. destruct d; [reflexivity|]. destruct H'.
+  - rewrite H. apply orb_true_r.
 Qed.
 
 (* ---------- _get_attribute, for every variant in which the two repairs are in place ---------- *)
@@ -185,6 +197,7 @@ Proof.
     + (* hook as a function *) split; [intros m a Hin; eapply HOOKS; eauto|]. split; intros m Hr.
       * destruct (exposed s m0) eqn:Ee; inversion Hr; subst. exists t. unfold is_method. rewrite Ek. auto.
       * destruct (exposed s m0); discriminate.
+    + (* raiser: a plain value *) split; [intros m a Hin; eapply HOOKS; eauto|]. split; intros; discriminate.
   - remember (t_mem t implicit_attrs) as imp eqn:Eimp. clear Eimp.
     inversion H; subst; clear H. split; [|split; intros; discriminate].
     intros m a Hin. apply in_app_or in Hin. destruct Hin as [Hin|Hin]; [eapply HOOKS; eauto|].
@@ -606,10 +619,30 @@ Lemma exposed_rule_of : forall s m, exposed s m = true -> exposed_by_rule s m.
 Proof.
   unfold Expose.exposed, Expose.exposed_by_rule, own_ok, class_marked. intros s m H.
   apply andb_true_iff in H. destruct H as [_ H].
-  apply orb_true_iff in H. destruct H as [H|H]; apply andb_true_iff in H; destruct H as [H1 H2].
-  - left. split; [auto|apply negb_true_iff; auto].
-  - right. apply andb_true_iff in H1. destruct H1 as [H1 _]. split; [auto|].
-    destruct (m_kind m) as [| | |g st d| | | |]; auto. destruct g, st, d; simpl in H2; auto; discriminate.
+  apply orb_true_iff in H. destruct H as [H|H]; [apply orb_true_iff in H; destruct H as [H|H]|].
+  - apply andb_true_iff in H; destruct H as [H1 H2]. left. split; [auto|apply negb_true_iff; auto].
+  - apply andb_true_iff in H; destruct H as [H1 H2].
+    right. left. apply andb_true_iff in H1. destruct H1 as [H1 _]. split; [auto|].
+    destruct (m_kind m) as [| | |g st d| | | | |]; auto. destruct g, st, d; simpl in H2; auto; discriminate.
+  - right. right. auto.
+Qed.
+
+(* a property accessor runs only under Pyro5's rule: the property's deciding (first) accessor function carries an
+   explicit mark — put there for this property, or because that function is exposed in its own right — or its class is exposed *)
+Lemma accessor_rule : forall q s r m a,
+  repaired q -> In (m, a) (fst (serve q s r)) -> a = AGet \/ a = ASet -> exposed_by_rule s m.
+Proof.
+  intros q s r m a Hq Hin Ha.
+  pose proof (gate_sound_gen q s r m a Hq Hin) as G.
+  assert (K : r_kind r = RGet \/ r_kind r = RSet).
+  { destruct G as [G|[[_ [G _]]|[_ [G _]]]]; [|destruct Ha; congruence|destruct Ha; congruence].
+    unfold Expose.legit, acc_fits in G. destruct Ha; subst a; tauto. }
+  rewrite fst_serve in Hin. unfold serve_core in Hin.
+  assert (F : forall a0, In (m, a) (fst (attr_request is_private q s a0 r)) -> exposed_by_rule s m).
+  { intros a0 H0. destruct (attr_request_safe q s a0 r Hq) as [Y|Y]; rewrite Y in H0; [destruct H0|].
+    destruct (serve_attr_cases q s a0 (first_name r) Hq) as [Z|[t [m0 [g [st [d [_ [Z [_ [_ [_ [_ He]]]]]]]]]]]]; rewrite Z in H0; [destruct H0|].
+    destruct H0 as [H0|[]]. inversion H0; subst. apply exposed_rule_of; auto. }
+  destruct K as [K|K]; rewrite K in Hin; eapply F; eauto.
 Qed.
 
 Lemma meta_methods_exact : forall s n,
@@ -639,7 +672,7 @@ Proof.
     apply andb_true_iff in H. destruct H as [Hm He].
     pose proof (class_lookup_some _ _ _ El) as [Hi _].
     unfold props_have_accessor in Hpa. rewrite forallb_forall in Hpa. specialize (Hpa m Hi).
-    unfold is_prop in Hm. destruct (m_kind m) as [| | |g st d| | | |] eqn:Ek; try discriminate.
+    unfold is_prop in Hm. destruct (m_kind m) as [| | |g st d| | | | |] eqn:Ek; try discriminate.
     pose proof (exposed_rule_of _ _ He) as Hx.
     destruct g as [bg|].
     + left. exists m. apply (exposed_served s RGet false n m AGet); [discriminate|].
@@ -678,30 +711,88 @@ Qed.
 
 (* ---------- the metadata cache over a history of get_metadata calls on several registered objects ---------- *)
 Definition injective (key : nat -> nat) : Prop := forall a b, key a = key b -> a = b.
-Definition cache_ok (key : nat -> nat) (classes : list shape) (c : cache) : Prop :=
-  forall cid md, cache_find (key cid) c = Some md -> md = meta_of is_private (nth cid classes empty_shape).
+Definition cache_ok (key : nat -> nat) (classes : list shape) (st : mstate) : Prop :=
+  forall cid md, cache_find (key cid) (ms_cache st) = Some md -> md = meta_of is_private (nth cid classes empty_shape).
+(* an answer, when one is given, is the member list of the class asked about *)
+Definition answer_ok (classes : list shape) (cid : nat) (a : option metadata) : Prop :=
+  match a with Some md => md = meta_of is_private (nth cid classes empty_shape) | None => True end.
 
-Lemma run_metadata_exact : forall key classes hist c,
-  injective key -> cache_ok key classes c ->
-  run_metadata is_private key classes c hist = map (fun cid => meta_of is_private (nth cid classes empty_shape)) hist.
+Lemma scan_store_ok : forall key classes st cid,
+  injective key -> cache_ok key classes st ->
+  answer_ok classes cid (fst (scan_store is_private key classes st cid)) /\
+  cache_ok key classes (snd (scan_store is_private key classes st cid)).
 Proof.
-  intros key classes hist. induction hist as [|cid rest IH]; intros c Hinj Hc; simpl; [reflexivity|].
-  unfold get_metadata. destruct (cache_find (key cid) c) as [md|] eqn:E.
-  - rewrite (Hc cid md E). f_equal. apply IH; auto.
-  - f_equal. apply IH; auto.
-    intros cid' md'. simpl. destruct (Nat.eqb (key cid') (key cid)) eqn:Ek.
-    + apply Nat.eqb_eq in Ek. apply Hinj in Ek. subst cid'. intros H. inversion H. reflexivity.
-    + apply Hc.
+  intros key classes st cid Hinj Hc. unfold scan_store. simpl. split; [reflexivity|].
+  intros cid' md'. simpl. destruct (Nat.eqb (key cid') (key cid)) eqn:Ek.
+  - apply Nat.eqb_eq in Ek. apply Hinj in Ek. subst cid'. intros H. inversion H. reflexivity.
+  - apply Hc.
 Qed.
 
+Lemma get_metadata_ok : forall key classes st cid,
+  injective key -> cache_ok key classes st ->
+  answer_ok classes cid (fst (get_metadata is_private key classes st cid)) /\
+  cache_ok key classes (snd (get_metadata is_private key classes st cid)).
+Proof.
+  intros key classes st cid Hinj Hc. unfold get_metadata.
+  destruct (cache_find (key cid) (ms_cache st)) as [md|] eqn:E.
+  - simpl. split; [apply Hc; auto|auto].
+  - destruct (raiser_of (nth cid classes empty_shape)) as [[| |]|].
+    + destruct (existsb (Nat.eqb cid) (ms_fired st)); [apply scan_store_ok; auto|].
+      simpl. split; [exact I|]. exact Hc.
+    + simpl. split; [exact I|exact Hc].
+    + apply scan_store_ok; auto.
+    + apply scan_store_ok; auto.
+Qed.
+
+Lemma run_metadata_ok : forall key classes hist st,
+  injective key -> cache_ok key classes st ->
+  Forall2 (answer_ok classes) hist (run_metadata is_private key classes st hist).
+Proof.
+  intros key classes hist. induction hist as [|cid rest IH]; intros st Hinj Hc; simpl; [constructor|].
+  pose proof (get_metadata_ok key classes st cid Hinj Hc) as [Ha Hc'].
+  destruct (get_metadata is_private key classes st cid) as [a st']. simpl in *.
+  constructor; [auto|]. apply IH; auto.
+Qed.
+
+(* without raising attributes every call is answered *)
+Definition no_raisers (classes : list shape) : Prop := forall cid, raiser_of (nth cid classes empty_shape) = None.
+
+Lemma run_metadata_exact : forall key classes hist st,
+  injective key -> cache_ok key classes st -> no_raisers classes ->
+  run_metadata is_private key classes st hist =
+  map (fun cid => Some (meta_of is_private (nth cid classes empty_shape))) hist.
+Proof.
+  intros key classes hist. induction hist as [|cid rest IH]; intros st Hinj Hc Hn; simpl; [reflexivity|].
+  pose proof (get_metadata_ok key classes st cid Hinj Hc) as [Ha Hc'].
+  unfold get_metadata in *. rewrite (Hn cid) in *.
+  destruct (cache_find (key cid) (ms_cache st)) as [md|] eqn:E; simpl in *.
+  - rewrite Ha. f_equal. apply IH; auto.
+  - f_equal. apply IH; auto.
+Qed.
+
+Lemma empty_cache_ok : forall key classes, cache_ok key classes ms_empty.
+Proof. intros key classes cid md H. discriminate. Qed.
+
+(* every answer given in any history over any registered objects is the member list of the asked object's class —
+   also when scans are aborted by raising attributes or re-entered from inside a scan *)
 Lemma metadata_history_exact : forall key classes objs hist,
   injective key ->
-  run_metadata is_private key classes [] (map (class_of objs) hist) =
-  map (fun o => meta_of is_private (shape_of classes objs o)) hist.
+  Forall2 (fun o a => match a with Some md => md = meta_of is_private (shape_of classes objs o) | None => True end)
+          hist (run_metadata is_private key classes ms_empty (map (class_of objs) hist)).
 Proof.
-  intros key classes objs hist Hinj. rewrite run_metadata_exact; auto.
-  - rewrite map_map. reflexivity.
-  - intros cid md H. discriminate.
+  intros key classes objs hist Hinj.
+  pose proof (run_metadata_ok key classes (map (class_of objs) hist) ms_empty Hinj (empty_cache_ok key classes)) as H.
+  remember (run_metadata is_private key classes ms_empty (map (class_of objs) hist)) as out. clear Heqout.
+  revert out H. induction hist as [|o rest IH]; intros out H; inversion H; subst; constructor; auto.
+Qed.
+
+Lemma metadata_history_answered : forall key classes objs hist,
+  injective key -> no_raisers classes ->
+  run_metadata is_private key classes ms_empty (map (class_of objs) hist) =
+  map (fun o => Some (meta_of is_private (shape_of classes objs o))) hist.
+Proof.
+  intros key classes objs hist Hinj Hn. rewrite run_metadata_exact; auto using empty_cache_ok.
+  rewrite map_map. reflexivity.
 Qed.
 
 Lemma id_injective : injective (fun k => k).
